@@ -311,6 +311,7 @@ impl Scenario for ChClose {
         if tier == "thorough" {
             v.push(json!({"n": 1, "state": "crossing", "fine": true}));
             v.push(json!({"n": 3, "state": "idle", "fine": true}));
+            v.push(json!({"n": 1, "state": "consumers", "fine": true}));
         }
         v
     }
